@@ -484,7 +484,7 @@ spec fn row_ok(row: RenderTableRow, ncols: int) -> bool {
     (forall|j: int| 0 <= j < row.cells@.len() ==> (#[trigger] row.cells@[j]).colspan >= 1) && colno_upto(row.cells@, row.cells@.len() as int) <= ncols
 }
 
-//@slice src/lib.rs :: fn render_table_tree :: /for row in table\.rows\(\) \{/ .. /\/\/ TODO: remove empty columns/
+//@slice src/lib.rs :: fn render_table_tree :: /for row in table\.rows\(\) \{/ .. /let tot_size: usize =/
 //@name spread_slice
 //@auto C01 C06
 //@sub /for row in table\.rows\(\)/ ==> for row in itr: &table.rows
@@ -540,6 +540,7 @@ fn spread_slice(table: &RenderTable, col_sizes0: Vec<SizeEstimate>) -> (r: Vec<S
     }
     col_sizes //@w
 } //@w
+    // TODO: remove empty columns
 //@end
 
 // ---------------------------------------------------------------------------------------------
@@ -557,29 +558,28 @@ proof fn lemma_span1_ge(cells: Seq<RenderTableCell>, k: int)
 //@auto C01 C06
 //@sub /for \(i, &\(has_zero, num_cols\)\) in num_columns\.iter\(\)\.enumerate\(\)/ ==> for i in 0..num_columns.len()
 //@sub /for cell in rows\[i\]\.cells_mut\(\)/ ==> for ci in itc2: 0..rows[i].cells.len()
-fn colspan0_slice(rows0: Vec<RenderTableRow>, num_columns: Vec<(bool, usize)>, max_columns: &usize) -> (r: Vec<RenderTableRow>) //@w[
-    requires
-        // what the iterator chain above the slice computes (A6): per row, whether it has a zero colspan and the sum of max(colspan, 1);
-        // max_columns is at least every such sum
-        num_columns@.len() == rows0@.len(),
-        forall|k: int| 0 <= k < rows0@.len() ==> (#[trigger] num_columns@[k]).1 == span1_upto(rows0@[k].cells@, rows0@[k].cells@.len() as int) && num_columns@[k].1 <= *max_columns,
-        forall|k: int| 0 <= k < rows0@.len() ==> (#[trigger] num_columns@[k]).0 == (exists|j: int| 0 <= j < rows0@[k].cells@.len() && (#[trigger] rows0@[k].cells@[j]).colspan == 0),
-    ensures
-        r@.len() == rows0@.len(),
-        // afterwards no cell has colspan 0 (C01: later code divides by the colspan), and non-zero colspans are untouched (C06)
+fn colspan0_slice(rows0: Vec<RenderTableRow>, num_columns: Vec<(bool, usize)>, max_columns: &usize) -> (r: Vec<RenderTableRow>) //@w
+    requires //@w
+        // what the iterator chain above the slice computes (A6): per row, whether it has a zero colspan and the sum of max(colspan, 1); //@w
+        // max_columns is at least every such sum //@w
+        num_columns@.len() == rows0@.len(), //@w
+        forall|k: int| 0 <= k < rows0@.len() ==> (#[trigger] num_columns@[k]).1 == span1_upto(rows0@[k].cells@, rows0@[k].cells@.len() as int) && num_columns@[k].1 <= *max_columns, //@w
+        forall|k: int| 0 <= k < rows0@.len() ==> (#[trigger] num_columns@[k]).0 == (exists|j: int| 0 <= j < rows0@[k].cells@.len() && (#[trigger] rows0@[k].cells@[j]).colspan == 0), //@w
+    ensures //@w
+        r@.len() == rows0@.len(), //@w
+        // afterwards no cell has colspan 0 (C01: later code divides by the colspan), and non-zero colspans are untouched (C06) //@w
         forall|k: int, j: int| 0 <= k < r@.len() && 0 <= j < r@[k].cells@.len() ==> (#[trigger] r@[k].cells@[j]).colspan >= 1, //@w @C01 @C06 #no_zero_colspan_left
         forall|k: int| 0 <= k < r@.len() ==> (#[trigger] r@[k]).cells@.len() == rows0@[k].cells@.len(), //@w @C03 @C06 #colspan0_keeps_cells
-{ //@w]
+{ //@w
     let mut rows = rows0; //@w
         for i in 0..num_columns.len()
-            invariant //@w[
-                rows@.len() == rows0@.len(), num_columns@.len() == rows0@.len(),
-                forall|k: int| 0 <= k < rows@.len() ==> (#[trigger] rows@[k]).cells@.len() == rows0@[k].cells@.len(),
-                forall|k: int, j: int| 0 <= k < i && 0 <= j < rows@[k].cells@.len() ==> (#[trigger] rows@[k].cells@[j]).colspan >= 1,
-                forall|k: int| i <= k < rows@.len() ==> #[trigger] rows@[k] == rows0@[k],
-                forall|k: int| 0 <= k < rows0@.len() ==> (#[trigger] num_columns@[k]).1 == span1_upto(rows0@[k].cells@, rows0@[k].cells@.len() as int) && num_columns@[k].1 <= *max_columns,
-                forall|k: int| 0 <= k < rows0@.len() ==> (#[trigger] num_columns@[k]).0 == (exists|j: int| 0 <= j < rows0@[k].cells@.len() && (#[trigger] rows0@[k].cells@[j]).colspan == 0),
-            //@w]
+            invariant //@w
+                rows@.len() == rows0@.len(), num_columns@.len() == rows0@.len(), //@w
+                forall|k: int| 0 <= k < rows@.len() ==> (#[trigger] rows@[k]).cells@.len() == rows0@[k].cells@.len(), //@w
+                forall|k: int, j: int| 0 <= k < i && 0 <= j < rows@[k].cells@.len() ==> (#[trigger] rows@[k].cells@[j]).colspan >= 1, //@w
+                forall|k: int| i <= k < rows@.len() ==> #[trigger] rows@[k] == rows0@[k], //@w
+                forall|k: int| 0 <= k < rows0@.len() ==> (#[trigger] num_columns@[k]).1 == span1_upto(rows0@[k].cells@, rows0@[k].cells@.len() as int) && num_columns@[k].1 <= *max_columns, //@w
+                forall|k: int| 0 <= k < rows0@.len() ==> (#[trigger] num_columns@[k]).0 == (exists|j: int| 0 <= j < rows0@[k].cells@.len() && (#[trigger] rows0@[k].cells@[j]).colspan == 0), //@w
         {
             let (has_zero, num_cols) = num_columns[i]; //@w
             proof { lemma_span1_ge(rows0@[i as int].cells@, rows0@[i as int].cells@.len() as int); assert(rows@[i as int] == rows0@[i as int]); } //@w
@@ -587,17 +587,16 @@ fn colspan0_slice(rows0: Vec<RenderTableRow>, num_columns: Vec<(bool, usize)>, m
             // but that's not very well defined anyway.
             if has_zero {
                 for ci in itc2: 0..rows[i].cells.len()
-                    invariant //@w[
-                        i < rows@.len(), rows@.len() == rows0@.len(), num_columns@.len() == rows0@.len(),
-                        forall|k: int| 0 <= k < rows@.len() ==> (#[trigger] rows@[k]).cells@.len() == rows0@[k].cells@.len(),
-                        forall|k: int, j: int| 0 <= k < i && 0 <= j < rows@[k].cells@.len() ==> (#[trigger] rows@[k].cells@[j]).colspan >= 1,
-                        forall|k: int| i < k < rows@.len() ==> #[trigger] rows@[k] == rows0@[k],
-                        forall|j: int| 0 <= j < ci ==> (#[trigger] rows@[i as int].cells@[j]).colspan >= 1,
-                        forall|j: int| ci <= j < rows@[i as int].cells@.len() ==> #[trigger] rows@[i as int].cells@[j] == rows0@[i as int].cells@[j],
-                        num_cols == span1_upto(rows0@[i as int].cells@, rows0@[i as int].cells@.len() as int), num_cols <= *max_columns,
-                        rows@[i as int].cells@.len() == rows0@[i as int].cells@.len(), rows0@[i as int].cells@.len() >= 1 ==> num_cols >= 1,
-                        itc2.iter.end == rows0@[i as int].cells@.len(),
-                    //@w]
+                    invariant //@w
+                        i < rows@.len(), rows@.len() == rows0@.len(), num_columns@.len() == rows0@.len(), //@w
+                        forall|k: int| 0 <= k < rows@.len() ==> (#[trigger] rows@[k]).cells@.len() == rows0@[k].cells@.len(), //@w
+                        forall|k: int, j: int| 0 <= k < i && 0 <= j < rows@[k].cells@.len() ==> (#[trigger] rows@[k].cells@[j]).colspan >= 1, //@w
+                        forall|k: int| i < k < rows@.len() ==> #[trigger] rows@[k] == rows0@[k], //@w
+                        forall|j: int| 0 <= j < ci ==> (#[trigger] rows@[i as int].cells@[j]).colspan >= 1, //@w
+                        forall|j: int| ci <= j < rows@[i as int].cells@.len() ==> #[trigger] rows@[i as int].cells@[j] == rows0@[i as int].cells@[j], //@w
+                        num_cols == span1_upto(rows0@[i as int].cells@, rows0@[i as int].cells@.len() as int), num_cols <= *max_columns, //@w
+                        rows@[i as int].cells@.len() == rows0@[i as int].cells@.len(), rows0@[i as int].cells@.len() >= 1 ==> num_cols >= 1, //@w
+                        itc2.iter.end == rows0@[i as int].cells@.len(), //@w
                 {
                     let cell = &mut rows[i].cells[ci]; //@w
                     if cell.colspan == 0 {
